@@ -66,6 +66,10 @@ class Contract:
         self.opaque_keeps: list[str] = kw.pop("opaque_keeps", [])
         # region (block) contract: {"anchor": "<statement text>[#n]", "span": k}; key is "Cls.method@label"
         self.region: dict = kw.pop("region", None)
+        # expect_outcomes: outcomes ("return", exception class names) that MUST have at least one feasible path; a missing
+        # one is reported as an error (the function is then undecided): guards against a change after which the function
+        # can no longer return normally and every exit obligation holds vacuously (guide rule 6, made automatic)
+        self.expect_outcomes: list[str] = kw.pop("expect_outcomes", [])
         self.specialize: dict[str, list] = kw.pop("specialize", {})  # param -> concrete values (case split, completeness proved)  # labelled assumptions (listed in evidence)
         if kw:
             raise TypeError("unknown contract keys %s for %s" % (list(kw), key))
